@@ -20,6 +20,14 @@ def run_script(task):
         d = sc.run_json(src, timeout=task.get("timeout", 900), env=task.get("env"))
     out = dict(results=[], samples=d.get("samples", [])[:3], violations=[], bounded=dict(name=task["script"], evaluations=d.get("evaluations", 0), distinct_nontrivial=d.get("distinct", 0), rule=d.get("rule", ""), bound=d.get("bound", "")))
     if d.get("error") or d.get("rc", 0) not in (0,) and not d.get("failures"):
+        err = str(d.get("stderr") or "")
+        frames = [l for l in err.split("\n") if l.strip().startswith("File ")]
+        if frames and "/bt/" in frames[-1] and "btscratch" in frames[-1]:
+            # the exception was raised inside the library under test on a generated, well-formed input: a real execution that fails
+            fl = dict(clause="library-raised-on-a-generated-input", where=frames[-1].strip()[:160], error=err.strip().split("\n")[-1][:200])
+            out["violations"].append(dict(id="bounded/%s/library-raised-on-a-generated-input" % task["script"], kind="bounded", props=list(task.get("props", [])), verdict="refuted", backend="real-execution",
+                                          secs=0.0, func=task["script"], model=fl, replay_inline=dict(reproduced=True, witness=fl, script=task["script"], seed=task.get("seed", 0))))
+            return out
         out["error"] = "bounded script %s failed: %s" % (task["script"], json.dumps(d)[:1500])
         return out
     from pyvc.report import load_known
